@@ -8,7 +8,8 @@ property theorems.
   sequential histories (put / get / ack / gc / close-reopen / crash after ANY prefix of the
   store trace of an in-flight Put), any length, any message sizes incl. page roll-over:
     get_after_put (histories with SetAppendedSeq resets, each satisfying ResetOK), get_after_put_noreset,
-    reset_discards, later_append_preserves, later_op_preserves, seq_dense, put_returns_next,
+    reset_discards, reopen_preserves_cursor, reopen_cursor_from_last_item,
+    failed_index_put_keeps_sequences, later_append_preserves, later_op_preserves, seq_dense, put_returns_next,
     failed_put_preserves (a Put that returns an error — too large, or AcquirePage failed at a
     roll-over — leaves the queue untouched; histories may contain such Puts anywhere)
   interleavings of appender threads over the atomic steps alloc / write / persist:
@@ -30,7 +31,7 @@ property theorems.
     the reverse of their alloc order followed by reopen (or crash) + one more Put; and the
     same overlap across a page roll-over followed by ack + GC.
 -/
-import LinVerif.Lemmas.C05Defs
+import LinVerif.Lemmas.C05Mutants
 import LinVerif.Generated.C05
 
 namespace LinVerif.Props.C05
@@ -101,6 +102,13 @@ lookup / acquisition, no index page bookkeeping); `ReadBytes` returns a slice of
 theorem reset_readbytes_tie :
     C05.setAppendedAccesses = expectedSetAppendedAccesses ∧ C05.setAppendedConds = expectedSetAppendedConds ∧
     C05.setAppendedAssigns = expectedSetAppendedAssigns ∧ C05.readBytesBody = expectedReadBytesBody := by decide
+
+/-- Put touches no queue field before it holds rwMutex (in particular the sequence is read
+inside persistMetaOfMessage, which takes no sequence parameter), and every guard / formula
+the model mirrors could be re-extracted -/
+theorem put_lock_discipline_tie :
+    C05.putUnlockedQueueAccesses = [] ∧ C05.persistParams = ["dataPageIndex", "dataLen", "messageOffset"] ∧
+    C05.extractionProblems = [] := by decide
 
 /-- `page.Factory.TruncatePages` removes a page iff its ID (the map key) is below the bound -/
 theorem truncate_pages_tie :
@@ -209,6 +217,64 @@ theorem later_append_preserves (pre : List Op) (m' : Msg) (s : Int) (b : List Na
   · obtain ⟨_, _, _, r4, _⟩ := put_inv I1 m' hl
     omega
   · unfold put; rw [if_pos (by omega)]; dsimp only; omega
+
+/-- NewQueue recomputes the write cursor from the LAST sequence's index item — data page id,
+offset + length — after every covered history (resets and failed appends included), whether
+or not that sequence is acknowledged; an empty queue starts at page 0 / offset 0; the index
+page is the one of the last sequence. -/
+theorem reopen_cursor_from_last_item (ops : List Op) (h : OpsOK St.init ops) :
+    Synced (reopen (run St.init ops)) :=
+  reopen_cursor (run_inv_ok init_inv ops h)
+
+/-- Close/reopen does not move the write cursor: after every history of puts, failed
+roll-overs, gets, acks, GCs, reopens and crashes — fully acknowledged ones included — NewQueue
+computes exactly the cursor (data page, offset) and index page the queue object had. (After
+`SetAppendedSeq` or a failed index-page switch the volatile cursor is ahead of the last item
+until the next Put; NewQueue then falls back to the last item, `reopen_cursor_from_last_item`.) -/
+theorem reopen_preserves_cursor (ops : List Op) (hp : ∀ op ∈ ops, op.plain) :
+    (reopen (run St.init ops)).q.dataPageIndex = (run St.init ops).q.dataPageIndex ∧
+    (reopen (run St.init ops)).q.messageOffset = (run St.init ops).q.messageOffset ∧
+    (reopen (run St.init ops)).q.indexPageIndex = (run St.init ops).q.indexPageIndex ∧
+    (reopen (run St.init ops)).q.appended = (run St.init ops).q.appended ∧
+    (reopen (run St.init ops)).q.acked = (run St.init ops).q.acked := by
+  have I := (run_inv init_inv ops (fun o ho => Op.plain_noReset (hp o ho))).1
+  have S := run_synced init_inv init_synced ops hp
+  have S' := reopen_cursor I
+  obtain ⟨_, _, ha, hk⟩ := reopen_inv I
+  have hap : -1 ≤ (run St.init ops).q.appended := Int.le_trans I.core.ackLo I.core.ackHi
+  show (openQ (run St.init ops).mem).q.dataPageIndex = _ ∧ (openQ (run St.init ops).mem).q.messageOffset = _ ∧
+    (openQ (run St.init ops).mem).q.indexPageIndex = _ ∧ _ ∧ _
+  refine ⟨?_, ?_, ?_, ha, hk⟩
+  · by_cases h : (run St.init ops).q.appended = -1
+    · rw [(S'.cur0 (by rw [ha]; exact h)).1, (S.cur0 h).1]
+    · have h1 := S'.cur (run St.init ops).q.appended.toNat (by rw [ha]; omega)
+      have h2 := S.cur (run St.init ops).q.appended.toNat (by omega)
+      rw [h1.1, h2.1, openQ_entry I]
+  · by_cases h : (run St.init ops).q.appended = -1
+    · rw [(S'.cur0 (by rw [ha]; exact h)).2, (S.cur0 h).2]
+    · have h1 := S'.cur (run St.init ops).q.appended.toNat (by rw [ha]; omega)
+      have h2 := S.cur (run St.init ops).q.appended.toNat (by omega)
+      rw [h1.2, h2.2, openQ_entry I]
+  · rw [S'.ipi, S.ipi, ha]
+
+/-- A Put that failed because the index-page switch failed consumes no sequence (it only skips
+the space it had allocated); by `later_op_preserves` (it is an operation of the alphabet) every
+readable message keeps its bytes, and later appends are covered by `get_after_put`. -/
+theorem failed_index_put_keeps_sequences (st st' : St) (m : Msg) (h : putFI st m = (st', .acquireFailed)) :
+    st'.q.appended = st.q.appended ∧ st'.q.acked = st.q.acked := by
+  unfold putFI at h
+  split at h
+  · cases h
+  · dsimp only at h
+    split at h
+    · injection h with h1 _
+      subst h1
+      exact ⟨by simp, by simp⟩
+    · exfalso
+      unfold put at h
+      split at h
+      · cases h
+      · injection h with _ h2; cases h2
 
 /-- `SetAppendedSeq(s)`: both sequences become `s` (the next successful Put returns `s+1` by
 `put_returns_next`), and nothing is readable any more — everything at or below `s` is
@@ -401,6 +467,35 @@ theorem concurrent_put_statement_fails (h : currentShape = .threeStep) : ¬ conc
 /-- the same witnesses are NOT violations when Put is one critical section -/
 theorem atomic_passes_witnesses :
     violates .atomic wPre wEv wPost = false ∧ violates .atomic gPre gEv gPost = false := by decide
+
+/-! ### three rewrites of the code that break the property (seeded as changes c05-13/14/15) -/
+
+/-- the sequence is read before the lock: two overlapping Puts read sequence 0; both return
+success under sequence 0, the appended sequence is 0 after two appends, and `Get 0` returns the
+second message — the first returned append is unreadable -/
+theorem seq_read_outside_lock_witness :
+    let r1 := Mutant.putWithSeq St.init msgA 0
+    let r2 := Mutant.putWithSeq r1.1 msgB 0
+    r1.2 = .ok 0 ∧ r2.2 = .ok 0 ∧ r2.1.q.appended = 0 ∧ get r2.1 0 = .ok msgB.bytes ∧
+      get r2.1 0 ≠ .ok msgA.bytes := by decide
+
+/-- the index-page switch fails silently on the append that starts index page 1: the Put
+reports success with sequence 262144, but `Get 262144` finds no index page -/
+theorem index_switch_lost_witness :
+    let st := setAppended (run St.init [.put msgA]) 262143
+    let r := Mutant.putIdxSwitchLost st msgB
+    r.2 = .ok 262144 ∧ get r.1 262144 = .notFound ∧ (put st msgB).2 = .ok 262144 ∧
+      get (put st msgB).1 262144 = .ok msgB.bytes := by decide
+
+/-- NewQueue rewinds a fully acknowledged queue to data page 0: with the last message on data
+page 1, the next append lands on page 0, and GC (bound = page of the acknowledged sequence = 1)
+deletes it — with the real `openQ` the same history reads the message back -/
+theorem drained_rewind_witness :
+    let st := run St.init [.put (Msg.gen 0 134217000), .put (Msg.gen 1 134217000), .ack 1]
+    let bad := gc (put (Mutant.openQDrained st.mem) msgA).1
+    let good := gc (put (openQ st.mem) msgA).1
+    (put (Mutant.openQDrained st.mem) msgA).2 = .ok 2 ∧ get bad 2 = .notFound ∧
+      get good 2 = .ok msgA.bytes ∧ (openQ st.mem).q.dataPageIndex = 1 := by decide
 
 end Neg
 
